@@ -75,6 +75,16 @@ def run(replay=None):
                 for d in ("both", "c2s", "s2c"):
                     cases.append({"group": "bulk", "cfg": {"client": "plain", "version": 1, "scenario": "bulk"},
                                   "ops": [{"dir": d, "kind": "blackout", "at": at, "dur": dur}]})
+        # an application-idle period close to the idle timeout, then an upload into a short outage (shorter than the idle timeout)
+        for idle in ([3000, 6000] if not thorough else [2000, 3000, 4500, 6000, 10000]):
+            for q in (50, 70, 80, 90):
+                for o in (20, 30, 40):
+                    # the outage hits the direction the acknowledgements travel in: the receiver of the data keeps hearing from the
+                    # sender, the sender's idle timer restarts with its first ack-eliciting packet after the quiet period (RFC 9000 10.1).
+                    # (An outage on the data direction makes the receiver's silence quiet + outage + PTO back-off: a legitimate timeout.)
+                    for up in ("c", "s"):
+                        cases.append({"group": "bulk", "cfg": {"client": "plain", "version": 1, "scenario": "quiet", "idle": idle, "up": up,
+                                                               "quiet": idle * q // 100, "outage": idle * o // 100, "odir": "s2c" if up == "c" else "c2s"}, "ops": []})
         # datagrams sharing packets with stream data; reordering by delaying every k-th datagram
         for k in ([5, 20] if not thorough else [3, 5, 7, 10, 20, 50]):
             for d in (30, 100, 250):
@@ -86,15 +96,27 @@ def run(replay=None):
             for rate in (20, 40, 80):
                 cases.append({"group": "many", "cfg": {"client": "plain", "version": 1, "scenario": "many"},
                               "ops": [{"dir": "both", "kind": "rand", "arg": rate, "at": seed + 1000 * c.seed, "from": 8}]})
+        # reordering beyond the loss-detection threshold (spurious retransmissions, split differently because other streams share
+        # the packets) combined with random loss: late originals meet partly read retransmissions
+        for k in ([3, 4, 7] if not thorough else [2, 3, 4, 5, 7, 11]):
+            for d in ([15, 25, 40, 80] if not thorough else [12, 15, 20, 25, 40, 60, 80, 150]):
+                for rate in (0, 30, 80):
+                    for seed in range(1, 3 if not thorough else 6):
+                        for sc in ("many", "multi"):
+                            cases.append({"group": sc, "cfg": {"client": "plain", "version": 1, "scenario": sc},
+                                          "ops": [{"dir": "both", "kind": "rand", "arg": rate, "at": seed + 77 * c.seed, "from": 8},
+                                                  {"dir": "both", "kind": "delayevery", "arg": k, "dur": d, "from": 8}]})
         for f in ("drop", "dup"):
             for o in range(6, 40, 3):
                 cases.append({"group": "dgram", "cfg": {"client": "plain", "version": 1, "scenario": "dgram"},
                               "ops": [{"dir": "c2s", "from": o, "to": o + 1, "kind": f, "arg": 0}]})
     c.samples = vlib.sample_cases(cases, c.rng, 3)
-    groups = c.go_run(".", "TestVerifC01", cases, vlib.pkg_overlay(".", "root"), timeout=3000)
+    # a panic of the code under test in a reader's goroutine ends the process (recovering it would leave the stream's mutex locked):
+    # the cases that do so on their own are reported as traces with a Panic event, which no action of StreamXfer explains
+    groups = c.go_run(".", "TestVerifC01", cases, vlib.pkg_overlay(".", "root"), timeout=3000, crash_pkg="github.com/refraction-networking/uquic")
     jobs = [{"label": g, "files": files, "constants": constants(g), "defs": defs(g), "invariants": INV} for g, files in groups.items()]
     viols = c.validate_many(c.spec("StreamXfer_Trace.tla"), jobs, timeout=2400)
-    if not replay:
+    if not replay and not getattr(c, "partial", False):
         c.require_events(["WriteStart", "WriteEnd", "CloseW", "Read", "DgramSend", "DgramRecv", "End"])
         c.negative_control(c.spec("StreamXfer_Trace.tla"), groups["multi"], constants("multi"), INV, mutate, defs=defs("multi"), label="multi")
     c.add_violations(viols, cases, describe)
